@@ -20,7 +20,6 @@ from symx import env, core
 from symx.core import le, lt, ge, gt, eq, ne, and_, or_, implies, not_, iff, ite, is_sym, sym_max, sym_min
 from symx.run import Job
 from props import alglib, simlib
-from props.alglib import PERIOD
 from props.simlib import acn, START
 
 FUNCS = alglib.ALG_FUNCS
@@ -50,8 +49,9 @@ class CustomEstimator:
         self.est = Est()
 
 
-def h_state(cx, stations, rows, sessions, algo, sort, estimator, uninterrupted, inc, vacate, limit_hi, finished=(), finite_prev=(8,), history=None):
+def h_state(cx, stations, rows, sessions, algo, sort, estimator, uninterrupted, inc, vacate, limit_hi, finished=(), finite_prev=(8,), history=None, period=5):
     env.install(cx)
+    alglib.PERIOD = period  # period length in minutes (one job = one process)
     import numpy as np
     import acnportal.algorithms as ALG
 
@@ -100,7 +100,7 @@ def h_state(cx, stations, rows, sessions, algo, sort, estimator, uninterrupted, 
         if k in finished:
             cx.assume(le(sc.req[k] - ev.energy_delivered, 1e-3))
         else:
-            cx.assume(gt(sc.req[k] - ev.energy_delivered, minpil[j] * stations[j][1] / (60 / PERIOD) / 1000 + 1e-3))
+            cx.assume(gt(sc.req[k] - ev.energy_delivered, minpil[j] * stations[j][1] / (60 / alglib.PERIOD) / 1000 + 1e-3))
         act.append(sc.net.get_ev(ev.station_id) is ev and k not in finished)
     with warnings.catch_warnings(record=True) as wl:
         warnings.simplefilter("always")
@@ -195,7 +195,7 @@ def h_sim(cx, stations, rows, n_sess, H, algo, sort, estimator, uninterrupted, i
         r = cx.real("req%d" % k, lo=0, lo_open=True, hi=2)
         mp = cx.real("battery_max_power%d" % k, lo=0, lo_open=True, hi=10)
         evs.append(A.EV(k % 2, H, r, ids[k], "sess-%s" % "zyx"[k], A.Battery(r, 0, mp)))
-    sim = A.Simulator(net, alg, A.EventQueue([A.PluginEvent(ev.arrival, ev) for ev in evs]), START, period=PERIOD, verbose=False)
+    sim = A.Simulator(net, alg, A.EventQueue([A.PluginEvent(ev.arrival, ev) for ev in evs]), START, period=alglib.PERIOD, verbose=False)
     with warnings.catch_warnings(record=True) as wl:
         warnings.simplefilter("always")
         try:
@@ -236,7 +236,7 @@ def jobs(tier):
         p.setdefault("finished", ())
         js.append(Job(name, h_state, p, functions=FUNCS, max_paths=200000, timeout=6000,
                       bounds=dict(stations=[s[0] + "@%dV/%d" % (s[1], s[2]) for s in p["stations"]], constraints=p["rows"], sessions=len(p["sessions"]), algorithm=p["algo"], sort=p["sort"],
-                                  estimator=p["estimator"], uninterrupted=p["uninterrupted"], continuous_inc=p["inc"]), cost=p.pop("_cost", 10)))
+                                  estimator=p["estimator"], uninterrupted=p["uninterrupted"], continuous_inc=p["inc"], period_min=p.get("period", 5)), cost=p.pop("_cost", 10)))
 
     c = "C0.08" if q else "C0.16"
     # --- greedy, two stations: continuous + finite, single phase, mixed-sign and sum rows
@@ -253,6 +253,12 @@ def jobs(tier):
                 if q and (mi + (sort == "llf") + (est is None)) % 2:
                     continue
                 add("rr[mix%d,%s,est=%s,unint=%d,inc=%s]" % (mi, sort, est, unint, inc), stations=st, rows=rows, sessions=SESS2, algo="rr", sort=sort, estimator=est, uninterrupted=unint, inc=inc, limit_hi=lh)
+    # period lengths that do not divide 60 (the A*periods <-> kWh conversions must use the exact ratio 60/period)
+    add("greedy[mix0,edf,period=45]", stations=mixes2[0][0], rows=mixes2[0][1], sessions=SESS2, algo="greedy", sort="edf", estimator=None, uninterrupted=False, limit_hi=mixes2[0][2], period=45)
+    add("rr[mix2,fcfs,period=7]", stations=mixes2[2][0], rows=mixes2[2][1], sessions=SESS2, algo="rr", sort="fcfs", estimator=None, uninterrupted=False, inc=0.05, limit_hi=mixes2[2][2], period=7)
+    if not q:
+        add("greedy[mix2,llf,period=40]", stations=mixes2[2][0], rows=mixes2[2][1], sessions=SESS2, algo="greedy", sort="llf", estimator="rampdown", uninterrupted=True, limit_hi=mixes2[2][2], period=40)
+        add("rr[mix0,lrpt,period=13]", stations=mixes2[0][0], rows=mixes2[0][1], sessions=SESS2, algo="rr", sort="lrpt", estimator=None, uninterrupted=False, inc=0.03, limit_hi=mixes2[0][2], period=13)
     # an increment whose multiples need more decimals than the increment's own order of magnitude (0.025 -> 0.075)
     st_, rows_, lh_ = mixes2[0]
     add("rr[mix0,fcfs,inc=0.025]", stations=st_, rows=rows_, sessions=SESS2, algo="rr", sort="fcfs", estimator=None, uninterrupted=False, inc=0.025, limit_hi=lh_)
